@@ -288,6 +288,11 @@ def residue_eval(t, r, m=ALIGN):
     if k in ("zext",):
         return residue_eval(t[1], r, m)
     if k == "cast" and t[1] == "IntToInt":
+        # only value-preserving casts: a cast to a narrower type (`size as u32`) truncates, and q ranges over all of usize
+        from .. import terms as T_
+        src = T_.INT_BITS.get(G.term_type(t[2]) or "", 64)
+        if T_.INT_BITS.get(t[3], 0) < src:
+            return None
         return residue_eval(t[2], r, m)
     if k == "bin":
         op = t[1]
